@@ -303,6 +303,9 @@ def body(chk):
     from harness import sessioncheck
 
     sessioncheck.standard(chk)
+    from harness import tlaps
+
+    tlaps.prove(chk, "IndexProofs")
     chk.finish(
         rule="points = every one-axis expression of Exprs(n), n=1..MaxLen (ints -n-1..n, slices with start/stop in {None} U "
              "-n-2..n+2 and step in {None} U +-1..+-(n+1), integer arrays up to MaxArr entries, all boolean masks) as "
